@@ -15,6 +15,7 @@ RULE = ("local LagrangeGrid p=1..4 / BSplineGrid p=1,3,5 (d<=2, levels 0..4, sub
         "every Lagrange basis object is evaluated at all its knots; derivatives vs central differences, integrals vs adaptive "
         "quadrature. distinct = digest(grid kind, p, levels/tree); non-trivial = >=5 points in some dimension")
 RULE += (" " + 'Global grids are built with boundary points, with zero boundary values, and with the modified boundary basis.')
+RULE += (" Global grid objects carry a history in 40% of the cases: the same coordinates with another valid level assignment, or another tree of the same size, hierarchised first.")
 REQUIRED = ["collocation_postcondition", "collocation_full_rank", "interpolate_reproduces_nodal_values", "lagrange_cardinality",
             "polynomial_reproduction", "derivative_matches_differences", "basis_integral_matches_quadrature", "interpolate_grid_consistent"]
 MIN_NONTRIVIAL = {"quick": 300, "thorough": 5000}
@@ -192,6 +193,24 @@ def run_case(case, res):
             an, bn, boundary=(gb == "boundary"), modified_basis=(gb == "modified"), p=p)
         if gb != "boundary":
             cfg["boundary"] = False
+        if rng.random() < 0.4 and not (kind == "global_lagrange" and gb == "modified"):
+            # the same grid object (and its hierarchisation operator) was used before: on the SAME coordinates with another
+            # valid level assignment, or on an unrelated tree of the same size
+            try:
+                if rng.random() < 0.6:
+                    hl = [trees.balanced_levels(len(x)) for x in pts1d]
+                    hp = [list(x) for x in pts1d]
+                else:
+                    hp, hl = [], []
+                    for k in range(d):
+                        P_, L_ = trees.gen_tree(rng, a[k], b[k], n_points=len(pts1d[k]))
+                        hp.append(P_)
+                        hl.append(L_)
+                grid.set_grid(hp, hl)
+                grid.integrate(f, [max(l) for l in hl], an, bn)
+                res.count("history_steps")
+            except (AssertionError, IndexError, ValueError):
+                pass
         if kind == "global_lagrange" and gb == "modified":
             try:
                 grid.set_grid(pts1d, levs)
